@@ -23,7 +23,13 @@ def wfc_element_type_match(facts):
             if "xml_parser::stag" in names and "xml_parser::etag" in names:
                 bins = [m for m in walk(n["args"][1]) if m.get("k") == "Binary"]
                 if len(bins) == 1 and bins[0]["op"] == "==":
-                    return True, "verify(tuple((stag, content, etag)), |..| ==)"
+                    def plain(x):
+                        while isinstance(x, dict) and x.get("k") in ("AddrOf", "Deref", "Unary"):
+                            x = x.get("a") or x.get("e")
+                        return isinstance(x, dict) and (x.get("k") == "Path" or (x.get("k") == "Field" and x.get("name") == "name"))
+                    if plain(bins[0]["a"]) and plain(bins[0]["b"]):
+                        return True, "verify(tuple((stag, content, etag)), |..| s.name == *e)"
+                    return False, "the names of start and end tag are not compared themselves (a value derived from them is)"
                 if bins:
                     return False, "the predicate that compares the names of start and end tag is not a single equality (operators %s)" % [b["op"] for b in bins]
     return False, "no equality test between the names of stag and etag in xml_parser::element"
